@@ -30,10 +30,24 @@ CLAIM = {
             "a funcs-file function) as histories (optimised = unoptimised = freshly compiled), random funcs files in random layouts (call = inlined "
             "body), W in {2,8} goroutines on one compiled expression (concurrent = sequential), the command line, and clock-reading expressions "
             "at top level, in funcs-file functions, @map/@filter/@reduce/@for bodies and nested calls evaluated twice >= 1.2 s apart - all judged "
-            "by the total trace specification ExprOpt_Trace.",
+            "by the total trace specification ExprOpt_Trace. ESCAPES (strengthened): every law is stated on the TEXT of the tree. ExprOpt.tla has the "
+            "compiler's reading of a text (escape scanner `\\x` -> unescape(x) also inside statements, brace depth, argument splitter = C09's X!SplitM, "
+            "recursive Compile of every argument in the same mode; agreement with C09's parse model X!CompileF is checked) and a printer over tagged text "
+            "that undoes each level (Compile / splitter quoted / splitter unquoted), with 18 writing styles (quoting x where LF TAB CR are resolved: "
+            "own level = 1, 4, 16 backslashes at depth 0, 1, 2 | raw | outermost level x needless escapes \\\" \\} \\a \\.). Groups e0 e1 e2 eu put literals "
+            "holding LF, TAB, backslash, `\\n` as two characters, braces, quotes, blanks at the top level (with and without statements), into arguments "
+            "(quoted / unquoted / mixed with {0}), two levels deep, into funcs-file bodies (u7 {0}\\t{1}, u8 with an escape inside an argument of its "
+            "body, u9 without any statement) and into arguments of funcs-file calls: TLC proves L0 text denotes the tree, L1 optimised = unoptimised, "
+            "L2 = ValT, L4 call = TEXT of the substituted body under both compilers; SkipUnesc = opt / noopt (a template without `{` taken as a literal "
+            "as it stands by ONE of the two compilers) is refuted in every group kind. FuncFile: line forms ending in 0, 1, 2, 3 backslashes (with "
+            "trailing blanks / comment), `\\#`, lines starting with backslashes; layouts cut after every backslash run / every backslash / the first "
+            "of a run, continuation mark followed directly by `#`; TrimAll = TRUE (TrimRight instead of TrimSuffix) is refuted on files, prefixes and "
+            "layouts. B1 additionally compares, case by case, optimised / unoptimised / reverse history / inlined body under both compilers / every "
+            "layout against one-definition-per-line (relations the model proves), demands the value itself only where escapes stand in top-level "
+            "literal text (documented), and sends every 10th escape vector through the CLI with and without --no-optimize.",
     "note": "Bounded: trees of depth <= 2, values over {'',0,7,a}, the modelled helper subset in B3/B1 (the law records of B2 cover every "
             "registered helper but only relate two observations). Outside the substitution law: bodies that re-bind {0} in a nested "
-            "sub-expression (@map \"{0}\"), arguments containing quotes/braces/backslashes/'#'. hist-fresh is not demanded of time/buckettime, "
+            "sub-expression (@map \"{0}\"); '#' inside a definition (always a comment), a body ending in a backslash; for escapes inside arguments only the relations of the property are demanded of the real code (their value is C09's subject). hist-fresh is not demanded of time/buckettime, "
             "whose documented 'cache' format remembers the first detected layout. Records in which both sides panic or the command reports a "
             "compile error are C08's subject. Real goroutine interleavings are sampled (the enumeration is on the model); the race detector "
             "runs in the thorough tier. Trusted: TLC, the Go runtime and clock, C11's scalar specification, urfave/cli argument handling.",
@@ -43,9 +57,9 @@ CLAIM = {
 }
 
 
-def _mc_cfg(thorough, withbad=False, fixed=True, inv="LawOK LawVolatile", init="Init"):
-    return ("INIT " + init + "\nNEXT Next\nCONSTANTS Thorough = %s\n WithBad = %s\n Fixed = %s\nINVARIANTS %s\nCHECK_DEADLOCK FALSE\n"
-            % (_b(thorough), _b(withbad), _b(fixed), inv))
+def _mc_cfg(thorough, withbad=False, fixed=True, inv="LawOK LawVolatile", init="Init", skip="none"):
+    return ("INIT " + init + "\nNEXT Next\nCONSTANTS Thorough = %s\n WithBad = %s\n Fixed = %s\n SkipUnesc = \"%s\"\nINVARIANTS %s\nCHECK_DEADLOCK FALSE\n"
+            % (_b(thorough), _b(withbad), _b(fixed), skip, inv))
 
 
 def _b(x):
@@ -53,13 +67,13 @@ def _b(x):
 
 
 def _gen_cfg(thorough, nfiles):
-    return ("INIT GInit\nNEXT GNext\nCONSTANTS Thorough = %s\n WithBad = FALSE\n Fixed = TRUE\n NFiles = %d\nINVARIANTS Dump\nCHECK_DEADLOCK FALSE\n"
+    return ("INIT GInit\nNEXT GNext\nCONSTANTS Thorough = %s\n WithBad = FALSE\n Fixed = TRUE\n SkipUnesc = \"none\"\n NFiles = %d\nINVARIANTS Dump\nCHECK_DEADLOCK FALSE\n"
             % (_b(thorough), nfiles))
 
 
-def _ff_cfg(n, mode):
-    return ("SPECIFICATION Spec\nCONSTANTS N = %d\n Mode = \"%s\"\nINVARIANTS InvLineCount InvNoLeak InvPrefix InvDone InvLayout\n"
-            "PROPERTY Terminates\nCHECK_DEADLOCK FALSE\n" % (n, mode))
+def _ff_cfg(n, mode, trimall=False, inv="InvLineCount InvNoLeak InvPrefix InvDone InvLayout InvRuns"):
+    return ("SPECIFICATION Spec\nCONSTANTS N = %d\n Mode = \"%s\"\n TrimAll = %s\nINVARIANTS %s\n"
+            "PROPERTY Terminates\nCHECK_DEADLOCK FALSE\n" % (n, mode, _b(trimall), inv))
 
 
 def _pool_cfg(w, j, p, prog, locked=True, early=False, init=True, inv="TypeOK SeesOwn Exclusive NoLeak Bounded"):
@@ -89,7 +103,7 @@ def _check(run):
         "detected layout is remembered) - for these only optimised = unoptimised along the same history is demanded",
         "the law records relate two observations of the real code; records where both evaluations panic or the command line reports a compile "
         "error on both sides are outside this property (C08)",
-        "funcs-file layouts: names without blanks, no '#', quote, brace-unbalanced or backslash-final text in a definition; a definition whose body "
+        "funcs-file layouts: names without blanks, no '#', raw TAB/LF or backslash-final text in a definition (escapes \\t \\n \\\\ \\{ inside bodies are generated); a definition whose body "
         "has a compile error is documented to be refused and is not generated",
         "command-line sample: group values that urfave/cli would split, trim or drop (commas, surrounding blanks, empty) are not sent through the CLI",
     ]
@@ -123,7 +137,28 @@ def _check(run):
             if "LawOK" not in r.violated:
                 raise Inconclusive("ExprOpt does not reject %s (violated=%s)\n%s" % (name, r.violated, r.out[-1500:]))
             neg[name] = "LawOK violated"
+        # a compiler that skips the unescape step for a template without `{` (one of the two modes only) must be refuted by
+        # optimised = unoptimised (L1) in every kind of escape group: top level, arguments, two levels, funcs-file bodies/calls
+        for skip in ("opt", "noopt"):
+            for kind in ("E0", "E1", "E2", "EU"):
+                if quick and skip == "noopt" and kind in ("E1", "E2"):
+                    continue
+                name = "unescape-skipped-by-the-%s-compiler/%s" % ("optimising" if skip == "opt" else "plain", kind.lower())
+                r = run.tlc("ExprOpt_MC", _mc_cfg(False, inv="LawL1", init="Init" + kind, skip=skip), workers=1, timeout=1500, label="ExprOpt_MC negative: " + name)
+                if "LawL1" not in r.violated:
+                    raise Inconclusive("ExprOpt does not reject %s (violated=%s)\n%s" % (name, r.violated, r.out[-1500:]))
+                neg[name] = "LawL1 violated"
         run.cov["model_rejects"] = neg
+        # the loader that drops every trailing backslash of a continuation line (TrimRight) must be refuted
+        lneg = {}
+        for name, mode, inv in [("loader-drops-all-trailing-backslashes/files", "lines", "InvDone"), ("loader-drops-all-trailing-backslashes/prefix", "lines", "InvPrefix"),
+                                ("loader-drops-all-trailing-backslashes/layouts", "layout", "InvLayout")]:
+            r = run.tlc("FuncFile_MC", _ff_cfg(2 if mode == "lines" else 1, mode, trimall=True, inv=inv).replace("PROPERTY Terminates\n", ""), workers=1, timeout=900,
+                        label="FuncFile_MC negative: " + name)
+            if inv not in r.violated:
+                raise Inconclusive("FuncFile does not reject %s (violated=%s)\n%s" % (name, r.violated, r.out[-1500:]))
+            lneg[name] = inv + " violated"
+        run.cov["loader_model_rejects"] = lneg
 
     # ---- B3 (b): the loader
     def loader():
@@ -139,7 +174,7 @@ def _check(run):
     def loader_layout():
         r2 = run.tlc("FuncFile_MC", _ff_cfg(1, "layout").replace("PROPERTY Terminates\n", ""), workers=1, timeout=3000, label="FuncFile_MC layout law")
         require_clean(run, r2, "FuncFile_MC layout")
-        if r2.distinct < 10000:
+        if r2.distinct < 50000:
             raise Inconclusive("layout law explored only %d states" % r2.distinct)
         run.cov["b3_loader_layout_states"] = r2.distinct
 
@@ -249,12 +284,17 @@ def _check(run):
     if rep is not None:
         if rep["gen_not_ok"]:
             raise Inconclusive("%d generated funcs files are not loaded to their definitions by the MODEL loader" % rep["gen_not_ok"])
-        if rep["layout_files"] < (30 if quick else 400) or rep["clock_runs"] < 1000 or rep["decided"] * 10 < rep["runs"] * 6:
+        if rep["layout_files"] < (30 if quick else 400) or rep["clock_runs"] < 1000 or rep["decided"] * 10 < rep["runs"] * 5 \
+                or rep["rel_comparisons"] < 100000 or rep["files_with_run_ge2"] < 10 or rep["per_group"].get("e0", 0) < 500 \
+                or rep["per_group"].get("e1", 0) < 500 or rep["per_group"].get("e2", 0) < 300 or rep["per_group"].get("eu", 0) < 200:
             raise Inconclusive("replay too small: %s" % {k: v for k, v in rep.items() if k not in ("mismatches", "per_func", "samples")})
         run.cov["b1_vectors"] = rep["vectors"]
         run.cov["b1_evaluations"] = rep["runs"]
         run.cov["b1_evaluations_with_a_demanded_value"] = rep["decided"]
         run.cov["b1_funcs_file_layouts"] = rep["layout_files"]
+        run.cov["b1_layouts_with_a_line_ending_in_2_or_more_backslashes"] = rep["files_with_run_ge2"]
+        run.cov["b1_longest_backslash_run_at_a_line_end"] = rep["max_backslash_run"]
+        run.cov["b1_relational_comparisons"] = rep["rel_comparisons"]
         run.cov["b1_layout_evaluations"] = rep["layout_runs"]
         run.cov["b1_clock_expressions"] = rep["clock_expressions"]
         run.cov["b1_clock_evaluations_1.2s_later"] = rep["clock_runs"]
@@ -274,6 +314,13 @@ def _check(run):
             where = m.get("where") or m["g"]
             if m["g"] == "cli":
                 where = "cli"
+            if where == "rel":
+                run.violation("b1:rel:%s:%s:%s" % (m["class"], m["g"], m["f"]),
+                              "%s: template %s%s with match groups %s and keys %s (funcs file %s, step %s of its history): %s; the first gives %r, "
+                              "the second %r%s; ExprOpt.tla proves them equal" % (
+                                  m["class"], m["template"], " / " + m["other"] if m["other"] != m["template"] else "", m.get("m"), m.get("ks"), m.get("env"),
+                                  m.get("step"), m["expect_kind"], m.get("got"), m.get("got_other"), " PANIC " + m["panic"] if m.get("panic") else ""), m)
+                continue
             run.violation("b1:%s:%s:%s" % (where, m["f"], m["class"]),
                           "template %s%s with match groups %s and keys %s (%s, optimise=%s, funcs file %s, step %s of its history) evaluates to %r%s; "
                           "ExprOpt.tla specifies %s %r" % (
@@ -321,8 +368,9 @@ def _check(run):
             run.cov["b2_helpers_with_generic_arguments"] = lsum["helpers_without_table_entry"]
         run.cov["traces_validated_against_impl"] += lsum["observations"]
         run.cov["evaluations"] += 2 * lsum["observations"]
-        if lsum["helpers"] < 80 or lsum["per_what"].get("opt-noopt", 0) < 20000 or lsum["per_what"].get("call-inline", 0) < 2000 \
-                or lsum["concurrent"]["goroutines"] < 8 or lsum["vol_expressions"] < 40:
+        # (a funcs file the real loader refuses yields no call sites: with violations already reported a shortfall is their symptom)
+        if not run.violations and (lsum["helpers"] < 80 or lsum["per_what"].get("opt-noopt", 0) < 20000 or lsum["per_what"].get("call-inline", 0) < 2000
+                                   or lsum["concurrent"]["goroutines"] < 8 or lsum["vol_expressions"] < 40):
             raise Inconclusive("law driver too small: %s" % {k: v for k, v in lsum.items() if k != "per_func"})
         k = 0
         for ln, info in zip(lines, infos):
